@@ -55,9 +55,15 @@ NestedObjs ==
   {Obj("Inner", m) : m \in Maps(Classes \cup {List(<<PyInt, PyInt>>), SetOf({PyStr}), Arr0d}, {"x", "y"})}
   \cup {Obj("Inner", [n \in {"x"} |-> Obj("Inner", [k \in {"y"} |-> v])]) : v \in {PyInt, Arr0d, SetOf({PyInt})}}
 
+\* long mixed sequences (index keys "0".."11": order must survive), not all-numeric
+LongSeq == [i \in 1..12 |-> IF i = 3 THEN PyStr ELSE IF i = 7 THEN PyNone ELSE Leaf("int", "a", 2 * i)]
+LongOnes == {List(LongSeq), Tuple(LongSeq), Dict([k \in {"k1"} |-> Tuple(LongSeq)]),
+             SetOf({LongSeq[i] : i \in 1..12}), List(<<List(LongSeq), PyStr>>),
+             Obj("Inner", [n \in {"x"} |-> List(LongSeq)])}
+
 Pool == IF Universe = "small"
-        THEN AttrLeaves \cup Depth1(Classes \cup {PyFloat, PyBool, NpInt, PyComplex, Arr0d}) \cup NestedObjs
-        ELSE AttrLeaves \cup Depth1(ContLeaves) \cup Depth2 \cup NestedObjs
+        THEN AttrLeaves \cup Depth1(Classes \cup {PyFloat, PyBool, NpInt, PyComplex, Arr0d}) \cup NestedObjs \cup LongOnes
+        ELSE AttrLeaves \cup Depth1(ContLeaves) \cup Depth2 \cup NestedObjs \cup LongOnes
 Pool2 == {PyInt, PyStr, Arr2d, TenGrad, SetOf({PyInt, PyStr}), List(<<PyInt, PyFloat>>), Rng,
           Obj("Inner", [n \in {"x"} |-> PyInt]), Dict([k \in {"k1"} |-> Arr0d]), NpInt, Arr0d, PyPath}
 
